@@ -27,6 +27,9 @@ package impl
 
 import (
 	"context"
+	"github.com/ipfs/go-datastore"
+	dss "github.com/ipfs/go-datastore/sync"
+	"time"
 
 	"github.com/libp2p/go-libp2p/core/peer"
 
@@ -218,4 +221,50 @@ func VerifC13_NotReadyPauseResume() {
 	// OBSERVATION (not asserted: the property only demands refusal, which holds): pause/resume talk
 	// to the transport and send the pause message BEFORE consulting the store, so the transport
 	// double does see a pause/resume call and the peer a pause message for the unreadable channel.
+}
+
+// VerifC13_ManagerOpensTheStoreItWasGiven is NOT a symbolic harness (native only, real
+// go-statemachine / go-ds-versioning / go-datastore): "opening a datastore written by a previous
+// run presents every stored channel" requires the manager to hand the application's datastore to
+// the channel store as it is (same keyspace, no extra layer): a channel written through the
+// channel store directly on a datastore is presented by a manager opened on that datastore.
+//
+//verif:opts nativeonly
+func VerifC13_ManagerOpensTheStoreItWasGiven() {
+	zz.Reach("native-only store hand-through")
+	if zz.Engine() {
+		return
+	}
+	channels.VerifUseRealFSM(true)
+	defer channels.VerifUseRealFSM(false)
+	ctx := context.Background()
+	self, other := peer.ID("self"), peer.ID("other")
+	ds := dss.MutexWrap(datastore.NewMapDatastore())
+	// an earlier run
+	env := &channels.VerifEnv{Self: self}
+	c1, err := channels.New(ds, func(datatransfer.Event, datatransfer.ChannelState) {}, env, self)
+	zz.Assert(err == nil && c1.Start(ctx) == nil, "earlier run: channel store opened")
+	chid, err := c1.CreateNew(self, 4711, zz.CidFromAtom("base"), zz.OpaqueNode("sel"), datatransfer.TypedVoucher{Voucher: zz.OpaqueNode("v"), Type: "t"}, self, self, other)
+	zz.Assert(err == nil, "earlier run: channel created")
+	_, err = c1.GetByID(ctx, chid) // flushed: durable
+	zz.Assert(err == nil, "earlier run: channel stored")
+	_ = c1.Stop(ctx)
+	// this run: a manager on the same datastore
+	dt, err := NewDataTransfer(ds, &verifNet{self: self}, &verifTransport{})
+	zz.Assert(err == nil, "manager constructed")
+	ready := make(chan error, 1)
+	dt.OnReady(func(e error) { ready <- e })
+	zz.Assert(dt.Start(ctx) == nil, "manager started")
+	select {
+	case e := <-ready:
+		zz.Assert(e == nil, "store opened without error")
+	case <-time.After(5 * time.Second):
+		zz.Fail("the manager never became ready")
+	}
+	st, err := dt.ChannelState(ctx, chid)
+	zz.Assert(err == nil && st != nil && st.ChannelID() == chid, "the manager presents the channel the earlier run stored in this datastore")
+	all, err := dt.InProgressChannels(ctx)
+	zz.Assert(err == nil && len(all) == 1, "and lists exactly it")
+	_ = dt.Stop(ctx)
+	zz.ModelValidated = 1
 }
